@@ -1006,6 +1006,42 @@ def desugar_range_map_filter_collect(text, log, where):
     return text
 
 
+def desugar_any_find_map(text, log, where):
+    """R17d: `RECV.iter().any(|PAT| BODY)` -> `{ let mut verif_any = false; for PAT in RECV.iter() { verif_any = verif_any || { BODY }; } verif_any }`
+    R17e: `RECV.iter().find_map(|PAT| BODY)` -> `{ let mut verif_found = None; for PAT in RECV.iter() { if verif_found.is_none() { verif_found = BODY; } } verif_found }`
+    Equivalent by the std definitions: the closure body is evaluated for the elements up to and including the first hit and for no
+    later one (`||` / the is_none() test short-circuit exactly like any()/find_map()); what is dropped is the early exit of the loop."""
+    while True:
+        toks = lex(text)
+        hit = None
+        for i in range(1, len(toks) - 8):
+            if toks[i].text == "iter" and toks[i - 1].text == "." and toks[i + 1].text == "(" and toks[i + 2].text == ")" \
+                    and toks[i + 3].text == "." and toks[i + 4].text in ("any", "find_map") and toks[i + 5].text == "(" and toks[i + 6].text == "|":
+                mclose = match_close(toks, i + 5)
+                pe = i + 7
+                while toks[pe].text != "|":
+                    pe += 1
+                r = i - 1
+                while r - 1 >= 0 and (toks[r - 1].kind == "id" or toks[r - 1].text == "."):
+                    r -= 1
+                if toks[r].text == ".":
+                    r += 1
+                hit = (r, i, pe, mclose, toks[i + 4].text)
+                break
+        if hit is None:
+            return text
+        r, i, pe, mclose, kind = hit
+        recv = re.sub(r"\s+", "", text[toks[r].start:toks[i - 1].start].strip())
+        pat = text[toks[i + 6].end:toks[pe].start].strip()
+        body = text[toks[pe].end:toks[mclose].start].strip()
+        if kind == "any":
+            repl = "{ let mut verif_any = false;\nfor %s in %s.iter() {\nverif_any = verif_any || { %s };\n}\nverif_any }" % (pat, recv, body)
+        else:
+            repl = "{ let mut verif_found = None;\nfor %s in %s.iter() {\nif verif_found.is_none() { verif_found = %s; }\n}\nverif_found }" % (pat, recv, body)
+        text = text[:toks[r].start] + repl + text[toks[mclose].end:]
+        log.append(("R17d" if kind == "any" else "R17e", where, "iter().%s(..) over %s desugared into a loop" % (kind, recv)))
+
+
 def desugar_map_fold(text, log, where):
     """R17c: `X.iter().map(F).fold(INIT, |mut ACC, E| { BODY ACC })` -> `{ let mut ACC = INIT; for verif_x in X.iter() { let E = F(verif_x); BODY } ACC }`
     (F a path to a function; the fold closure must end with the accumulator as its value)."""
@@ -1107,6 +1143,7 @@ def process_fn(u, fnpath, text, log, origin, canary=None):
         text = desugar_map_collect(text, log, fnpath)
         text = desugar_range_map_filter_collect(text, log, fnpath)
         text = desugar_map_fold(text, log, fnpath)
+        text = desugar_any_find_map(text, log, fnpath)
     if u.sqlmap:
         text = rewrite_sql(u, fnpath, text, log)
     if fnpath in u.mutself:
